@@ -16,6 +16,10 @@ MANIFEST = {
 }
 
 
+def FRANK2(c):
+    return c["term"] in ("jump", "avgflux", "pm", "coefpm", "njump", "geodS")
+
+
 def run(chk):
     quick = chk.tier == "quick"
     cases = s5.enumerate_formspace(chk)
@@ -31,7 +35,7 @@ def run(chk):
 
     # sum factorisation needs tensor-product elements (basix.create_tp_element): its own small family
     tps = [{"cell": cl, "degree": d, "term": t} for cl in ("quadrilateral", "hexahedron") for d in (1, 2)
-           for t in ("mass", "stiff", "coefmass", "xmass", "load", "withds") if not (cl == "hexahedron" and d == 2 and t != "mass")]
+           for t in ("mass", "stiff", "coefmass", "xmass", "load", "withds", "twodegrees") if not (cl == "hexahedron" and d == 2 and t != "mass")]
     if quick:
         tps = [t for t in tps if not (t["cell"] == "hexahedron" and t["degree"] == 2)]
     for i, t in enumerate(tps):
@@ -45,6 +49,17 @@ def run(chk):
     add(dg, {"part": "diagonal"}, "diag")
     add(s5.sample_cases([c for c in cases if c["term"] in ("load", "energy")], 3 if quick else 20, chk.seed + 3, max_cost=20),
         {"part": "diagonal"}, "diag(n/a)")
+    # diagonal: component coupling inside a blocked / mixed space, and interior facets (macro diagonal)
+    add(s5.sample_cases([c for c in cases if c["elem"] in ("vP1", "vP2") and c["term"] in ("divdiv", "cten")], 3 if quick else 20,
+                        chk.seed + 5, max_cost=40), {"part": "diagonal"}, "diag")
+    for k, cl in enumerate(("triangle",) if quick else ("triangle", "tetrahedron")):
+        items.append({"builder": "harness.corpus.realise_thdiv", "th": {"cell": cl, "rule": k}, "seed": chk.seed + 70 + k, "scalar": "float64",
+                      "ninputs": 1, "geom": "affine", "options": {"part": "diagonal"}, "label": f"thdiv/{cl}|diag"})
+    fc = s5.enumerate_formspace(chk, facets=True)
+    for i, c in enumerate(s5.sample_cases([c for c in fc if c["measure"] == "dS" and FRANK2(c) and c["cell"] != "prism"], 4 if quick else 30,
+                                          chk.seed + 6, max_cost=40)):
+        items.append({"case": c, "seed": chk.seed * 100003 + 900 + i, "scalar": "float64", "ninputs": 1, "builder": "harness.corpus.realise_facet",
+                      "npairs": 1, "nperm": 1, "options": {"part": "diagonal"}, "label": s5.case_label(c) + "|diag(dS)"})
     tt = s5.sample_cases(cases, 8 if quick else 80, chk.seed + 4, max_cost=25 if quick else 200)
     add(tt, {"table_rtol": 1e-12, "table_atol": 1e-14}, "tight")
     add(tt, {"table_rtol": 1e-3, "table_atol": 1e-4}, "loose", extra=8 * (1e-3 + 1e-4))
@@ -68,7 +83,7 @@ def run(chk):
     chk.add(distinct_nontrivial=len(nz), per_option_vector=tags,
             rule="cases enumerated by TLC from FormSpace.tla crossed with option vectors (sum_factorization on/off, part=diagonal, table tolerances); "
                  "non-trivial = exact tensor not all zero; distinct = (case, option vector)")
-    need = {"sf=0", "sf=1", "diag", "tight", "loose"}
+    need = {"sf=0", "sf=1", "diag", "diag(dS)", "tight", "loose"}
     chk.add(sum_factorised_cases=sum(1 for (lab, *_r) in nz if lab.startswith("tp/") and lab.endswith("sf=1")))
     if not need <= set(tags) or len(nz) < (35 if quick else 350):
         raise MachineryError(f"vacuity guard: non-trivial cases per option vector: {tags}")
